@@ -38,6 +38,11 @@ type DestCfg struct {
 	// the first one was buffered, or when Stop(lastPosition) tells the connector to flush (0 = off)
 	Batch        int `json:"batch,omitempty"`
 	BatchDelayMs int `json:"batch_delay_ms,omitempty"`
+	// EarlyAck (with Batch): the write call that completes a batch returns only after the answer for the whole
+	// batch has been handed to the engine (and a moment more) - the ack stream of a plugin is independent of its
+	// write stream, so an acknowledgment may reach the engine before the write call that produced it has returned,
+	// i.e. before the engine has even registered the record as awaiting an answer. Well-formed, just early.
+	EarlyAck bool `json:"early_ack,omitempty"`
 }
 
 type pendingRec struct {
@@ -63,6 +68,7 @@ type Dest struct {
 	attempts int
 	tears    int
 	st       *dstStream
+	sent     int  // answers handed over to the engine
 	empties  int  // empty answers given so far (shape "empty")
 	flushAll bool // Stop was received in this run: flush whatever is buffered
 	bufSince time.Time // when the oldest buffered record arrived (batching mode)
@@ -209,8 +215,24 @@ func (d *Dest) onWrite(req pconnector.DestinationRunRequest, st *dstStream, run 
 			fail = true
 		}
 	}
+	early := d.Cfg.EarlyAck && d.Cfg.Batch > 0 && !d.Cfg.Gated && len(d.pending) >= d.Cfg.Batch && !fail
+	target := d.sent + 1
 	d.cond.Broadcast()
 	d.mu.Unlock()
+	if early {
+		// bounded: an engine that asks for answers only after the write call returned (v2) never takes it earlier
+		deadline := time.Now().Add(150 * time.Millisecond)
+		for time.Now().Before(deadline) {
+			d.mu.Lock()
+			done := d.sent >= target || d.run != run
+			d.mu.Unlock()
+			if done {
+				time.Sleep(8 * time.Millisecond) // let the engine consume the answer and go idle
+				break
+			}
+			time.Sleep(500 * time.Microsecond)
+		}
+	}
 	if fail {
 		d.W.Log.Add("Fault", "what", "write-err", "conn", d.Cfg.ID, "err", d.Cfg.WriteErr)
 		st.s.close(toErr(d.Cfg.WriteErr))
@@ -355,6 +377,9 @@ func (d *Dest) replyLoop(ctx context.Context, st *dstStream, run int) {
 		if err := srv.Send(pconnector.DestinationRunResponse{Acks: acks}); err != nil {
 			return
 		}
+		d.mu.Lock()
+		d.sent++
+		d.mu.Unlock()
 	}
 }
 
